@@ -5,18 +5,20 @@ LEVEL = "other"
 TAGS = ("C07",)
 CONTRACT_MODULES = ALL_CONTRACTS
 FUNCTIONS = [S + "exitExcludedRegion", S + "disableExclusion", S + "processLinearMoves", "RetractionState.RetractionState._addCommands",
-             H + "_handle_G10", H + "_handle_G11", H + "handleAtCommand"]
+             H + "_handle_G10", H + "_handle_G11", H + "handleAtCommand", "GcodeParser.GcodeParser.buildCommand"]
 ASSUMPTIONS = ["A1", "A2", "A4"]
 BOUNDED = [script("format_number.py")]
 EXTRA_ASSUMPTIONS = ["'yields exactly the intended values': the interpolated values are the ones C03/C04 prove correct; this property adds that their rendering is readable",
                      "G10/G11 copy the parameter text of the original command verbatim (not synthesised numbers)",
-                     "non-finite floats (inf/nan) are outside A1"]
+                     "non-finite floats (inf/nan) are outside A1",
+                     "buildCommand is executed symbolically for argument maps of 0..3 parameters (bounded in that number only) and additionally checked bounded on random argument maps"]
 EXPLANATION = ("Deductive part (data flow + template shape): in every command returned by exitExcludedRegion, disableExclusion, "
                "processLinearMoves (retraction / recovery / G92 E re-sync), _addCommands, the G10/G11 handlers and handleAtCommand, every "
                "interpolated number went through GcodeParser.formatNumber, and the text around the numbers reads -- with an independent "
                "RS274 reader -- as one G/M code followed by distinct letters. Bounded part: formatNumber (CPython float repr + decimal) "
-               "never yields exponent notation, keeps the exact value and is read back correctly, and buildCommand on merged argument "
-               "maps yields distinct letters with the right values -- on the stated finite set of doubles (coverage.bounded).")
+               "never yields exponent notation, keeps the exact value and is read back correctly, on the stated finite set of doubles "
+               "(coverage.bounded). buildCommand on merged argument maps: deductive for 0..3 symbolic parameters (every number through "
+               "formatNumber, distinct letters, each value read back exactly, None as a bare letter), bounded on random maps.")
 TECHNIQUE = "contracts (data-flow of interpolated numbers through the formatter, template tokenised by an independent reader) + bounded check of the formatter on CPython"
 BREAKERS = [{'desc': 'exit move repeats the X letter',
   'functions': ['ExcludeRegionState.ExcludeRegionState.exitExcludedRegion'],
